@@ -51,3 +51,24 @@ func LoadInt64(addr *int64) int64 {
 	vsched.Result(strconv.FormatInt(v, 10))
 	return v
 }
+
+
+// typed atomics: the same scheduling points and labels as the function forms
+
+type Int32 struct{ v int32 }
+
+func (x *Int32) Load() int32                        { return LoadInt32(&x.v) }
+func (x *Int32) Store(v int32)                      { StoreInt32(&x.v, v) }
+func (x *Int32) Swap(v int32) int32                 { return SwapInt32(&x.v, v) }
+func (x *Int32) CompareAndSwap(o, n int32) bool     { return CompareAndSwapInt32(&x.v, o, n) }
+
+type Int64 struct{ v int64 }
+
+func (x *Int64) Load() int64       { return LoadInt64(&x.v) }
+func (x *Int64) Add(d int64) int64 { return AddInt64(&x.v, d) }
+
+// passed through unchanged (no scheduling point)
+type Bool = atomic.Bool
+type Uint32 = atomic.Uint32
+type Uint64 = atomic.Uint64
+type Value = atomic.Value
